@@ -155,6 +155,17 @@ def run_check(prop, tier, keep=False, only=None, jobs=16):
                             violations.append({"obligation": obl, "harness": h.name, "module": m, "detail": f, "harness_unit": h.unit})
                         continue
                     undecided.append("%s: %s" % (h.name, hr.status))
+            # ---------------------------------------------------- alternative groups: violated only if every member fails
+            alt_of = {h.name: h.alt for (_m, h) in sel if getattr(h, "alt", None)}
+            failed_h = {v["harness"] for v in violations}
+            for g in set(alt_of.values()):
+                members = [n for n, a in alt_of.items() if a == g]
+                if not all(n in failed_h for n in members):
+                    dropped = [v for v in violations if alt_of.get(v["harness"]) == g]
+                    if dropped:
+                        print("NOTE: alternative group %s: %s failed but %s holds -- the group's obligation stands" % (
+                            g, sorted({v["harness"] for v in dropped}), sorted(set(members) - failed_h)))
+                    violations = [v for v in violations if alt_of.get(v["harness"]) != g]
             # ---------------------------------------------------- replay failures natively
             seen = set()
             # replay at most two failing harnesses natively (the cheapest ones); the others share the report
